@@ -118,6 +118,10 @@ def plan(prop):
             obs.append(('vrp-pragmatic', lambda ctx, t=template, d=dims, n=places: po.ob_job_rules(ctx, t, d, n)))
         # totality beyond the inline load size (8 dimensions): the recorded known finding
         obs.append(('vrp-pragmatic', lambda ctx: po.ob_job_rules(ctx, 'pd', 9)))
+    if prop in ('C16', 'C10'):
+        import pragmatic_obligations as po
+        for n, m in (((4, None), (4, 4), (4, 1), (4, 3), (4, 5)) if Q else ((4, None), (4, 4), (4, 1), (4, 3), (4, 5), (9, 9), (9, 8), (1, 1), (1, 0))):
+            obs.append(('vrp-pragmatic', lambda ctx, n=n, m=m: po.ob_pragmatic_matrix(ctx, n, m)))
     if prop == 'C12':
         import pragmatic_obligations as po
         prag = 'vrp-pragmatic'
